@@ -242,8 +242,27 @@ Definition lambda_base (factors : list (Z * Z)) : Z :=
   end.
 Definition lambda_inv (m : Z) (factors : list (Z * Z)) : Z :=
   if m =? 2 then 1 else if (m =? 3) || (m =? 4) || (m =? 8) then 2 else lambda_base factors.
+(* 01ad5d5 (fix-8): lambda / prim_elem = maximal orbit size over ALL elements / an element reaching it.
+   for (mask = 0; mask < 2^nbf; ++mask) { tail = max_{i in mask} (e_i - 1); cyc = lcm_{i not in mask} lambda_inv_primpow(p_i, e_i);
+                                          cyc += tail; if (cyc > best) { best = cyc; bestmask = mask; } }
+   bit i of mask <-> factor i *)
+Fixpoint mask_eval (factors : list (Z * Z)) (mask : Z) : Z * Z :=          (* (tail, cyc) *)
+  match factors with
+  | [] => (0, 1)
+  | (p, e) :: tl =>
+    let '(tail, cyc) := mask_eval tl (mask / 2) in
+    if Z.odd mask then (Z.max tail (e - 1), cyc) else (tail, Z.lcm cyc (lambda_inv_primpow p e))
+  end.
+Fixpoint best_mask (n : nat) (mask : Z) (factors : list (Z * Z)) (best bestmask : Z) : Z * Z :=
+  match n with
+  | O => (best, bestmask)
+  | S k => let '(tail, cyc) := mask_eval factors mask in
+           let cand := cyc + tail in
+           if best <? cand then best_mask k (mask + 1) factors cand mask else best_mask k (mask + 1) factors best bestmask
+  end.
+Definition orbit_best (factors : list (Z * Z)) : Z * Z := best_mask (Nat.pow 2 (length factors)) 0 factors 0 0.
 Definition lambda (m : Z) (factors : list (Z * Z)) : Z :=
-  if m =? 2 then 1 else if (m =? 3) || (m =? 4) then 2 else if m =? 8 then 3 else lambda_base factors.
+  if m =? 2 then 1 else if (m =? 3) || (m =? 4) then 2 else if m =? 8 then 3 else fst (orbit_best factors).
 
 (* IntRNSsystem::RnsToRing = RnsToMixedRadix (Garner, Horner form) + MixedRadixToRing.
    done = [(p_{i-1}, m_{i-1}); ...; (p_0, m_0)];  m_0 = residu[0] mod p_0 (since b08bb0c) *)
@@ -281,8 +300,17 @@ Definition prim_base (factors : list (Z * Z)) (roots : list Z) : Z :=
   let Pe := map (fun pe => fst pe ^ snd pe) factors in
   let Ra := map (fun pr => if fst (fst pr) =? 2 then 3 else snd pr) (combine factors roots) in
   rns_to_ring Pe Ra.
+Fixpoint mask_residues (factors : list (Z * Z)) (roots : list Z) (mask : Z) : list Z :=
+  match factors, roots with
+  | (p, e) :: tl, r :: rtl =>
+    (if Z.odd mask then p else if p =? 2 then (if e =? 1 then 1 else 3) else r) :: mask_residues tl rtl (mask / 2)
+  | _, _ => []
+  end.
 Definition prim_elem (n : Z) (factors : list (Z * Z)) (roots : list Z) : Z :=
-  if n <=? 4 then n - 1 else if n =? 8 then 2 else prim_base factors roots.
+  if n <=? 4 then n - 1 else if n =? 8 then 2 else
+  let bestmask := snd (orbit_best factors) in
+  if bestmask =? 0 then prim_base factors roots
+  else rns_to_ring (map (fun pe => fst pe ^ snd pe) factors) (mask_residues factors roots bestmask).
 Definition prim_inv (n : Z) (factors : list (Z * Z)) (roots : list Z) : Z :=
   if n <=? 4 then n - 1 else if n =? 8 then 3 else prim_base factors roots.
 
